@@ -20,6 +20,7 @@ import subprocess
 from concurrent.futures import ThreadPoolExecutor
 
 from vf import build, coq, forest as F, mch
+from vf.core import sh
 
 KINDS = ["statm", "pf", "cycle", "cache", "branch"]
 KIND_NAME = {"statm": "proc/statm", "pf": "page-fault", "cycle": "pmu-cycle", "cache": "pmu-cache",
@@ -927,6 +928,200 @@ def strip_derived(txt):
     return txt
 
 
+# ---------------------------------------------------------------- end to end: generated programs under `uftrace record`
+E2E_METHODS = [("pg", ["-pg"], []), ("fentry", ["-pg", "-mfentry"], []), ("cyg", ["-finstrument-functions"], []),
+               ("patchable", ["-fpatchable-function-entry=5"], ["-P", "."])]
+
+
+def e2e_decode(d):
+    """own decoder of the main task's .dat: [('R', time, type, depth, name) | ('E', time, id, [words])]"""
+    import struct
+    base, exe, syms = None, None, []
+    for mp in glob.glob(os.path.join(d, "sid-*.map")):
+        for line in open(mp):
+            k = line.split()
+            if len(k) >= 6 and "/" in k[5] and base is None and ".so" not in k[5]:
+                base, exe = int(k[0].split("-")[0], 16), os.path.basename(k[5])
+    for line in open(os.path.join(d, exe + ".sym"), errors="replace"):
+        k = line.split()
+        if not line.startswith("#") and len(k) >= 4:
+            syms.append((int(k[0], 16), int(k[1], 16), k[3]))
+    out = {}
+    for df in glob.glob(os.path.join(d, "*.dat")):
+        tid = os.path.basename(df)[:-4]
+        if not tid.isdigit():
+            continue
+        b, off, items = open(df, "rb").read(), 0, []
+        while off + 16 <= len(b):
+            t, w = struct.unpack_from("<QQ", b, off)
+            off += 16
+            ty, more, depth, addr = w & 3, (w >> 2) & 1, (w >> 6) & 0x3ff, w >> 16
+            if ty == 3:
+                ln = struct.unpack_from("<H", b, off)[0] if more else 0
+                data = b[off + 2:off + 2 + ln]
+                if more:
+                    off += (ln + 2 + 7) & ~7
+                if addr == ID_VAR:
+                    wd = [int.from_bytes(data[8:], "little")]
+                else:
+                    sz = 4 if addr == ID_CPU else 8
+                    wd = [int.from_bytes(data[i:i + sz], "little") for i in range(0, len(data), sz)]
+                items.append(("E", t, addr, wd))
+            else:
+                name = "?"
+                for a, z, n in syms:
+                    if a <= addr - base < a + max(z, 1):
+                        name = n
+                items.append(("R", t, ty, depth, name))
+        out[int(tid)] = items
+    return out
+
+
+def e2e(ctx):
+    """generated C programs recorded by the real `uftrace record` with read= triggers and -W var (all instrumentation
+    methods incl. dynamic patching; a library call through the PLT hook): entry paths the in-process driver does not
+    reach, the writer thread and the files.  Oracles: nesting after erasing; READ right after ENTRY / DIFF right before
+    EXIT of every function with the trigger, differences >= 0 and the page-fault readings non-decreasing; the variable's
+    events = the changes of its value at the hooks (computed from the program text); times inside the enclosing call."""
+    rng = ctx.rng
+    objdir = harness(ctx).objdir
+    uft = os.path.join(objdir, "uftrace")
+    work = os.path.join(ctx.scratch, "e2e")
+    os.makedirs(work, exist_ok=True)
+    for pi in range(ctx.n(4, 16)):
+        method, cflags, rflags = E2E_METHODS[pi % 4] if pi < 4 else rng.choice(E2E_METHODS)
+        fo = F.gen_shape(rng, 4, rng.choice([4, 8, 14]), 4)
+        cnt = [0]
+        protos, bodies, hooks = [], [], []        # hooks: ('E'|'X', name, value of gv the hook observes)
+        gv = [0]
+        use_plt = method == "pg"
+
+        def emit(c):
+            cnt[0] += 1
+            name = "n%d_f%d" % (cnt[0], c.k)
+            hooks.append(("E", name, gv[0]))
+            pre = post = ""
+            if rng.random() < 0.3:
+                gv[0] = rng.randrange(1, 6)
+                pre = "gv = %d;" % gv[0]
+            calls = []
+            for k in c.kids:
+                calls.append(emit(k) + "();")
+                if rng.random() < 0.2:
+                    gv[0] = rng.randrange(1, 6)
+                    calls.append("gv = %d;" % gv[0])
+            if use_plt and c.k == 3 and not c.kids:
+                calls.append("sink += getpid();")
+                hooks.append(("E", "getpid", gv[0]))
+                hooks.append(("X", "getpid", gv[0]))
+            if rng.random() < 0.3:
+                gv[0] = rng.randrange(1, 6)
+                post = "gv = %d;" % gv[0]
+            hooks.append(("X", name, gv[0]))
+            protos.append("void %s(void);" % name)
+            bodies.append("__attribute__((noinline)) void %s(void) { %s for (volatile int i = 0; i < 50; i++) sink += i; %s %s }"
+                          % (name, pre, " ".join(calls), post))
+            return name
+        hooks.append(("E", "main", 0))
+        roots = [emit(c) for c in fo]
+        hooks.append(("X", "main", gv[0]))
+        src = "\n".join(["#include <unistd.h>", "volatile long gv;", "static volatile unsigned long sink;"] + protos + bodies +
+                        ["int main(void) { %s return 0; }" % " ".join(r + "();" for r in roots)]) + "\n"
+        cfile, exe, dd = [os.path.join(work, "p%d%s" % (pi, x)) for x in (".c", "", ".data")]
+        open(cfile, "w").write(src)
+        rc, o, e = sh(["gcc", "-O1", "-o", exe, cfile] + cflags, timeout=120)
+        if rc != 0:
+            ctx.broken("e2e program does not compile", e[-400:])
+            continue
+        trig = "_f1$@read=page-fault"
+        opts = ["-W", "var:gv", "-T", trig] + (["-T", "getpid@read=page-fault"] if use_plt else ["--no-libcall"])
+        shutil.rmtree(dd, ignore_errors=True)
+        rc, o, e = sh(["timeout", "60", uft, "record", "--no-pager", "--no-event", "--libmcount-path=" + objdir, "-d", dd]
+                      + opts + rflags + [exe], timeout=90)
+        rep = {"mode": "e2e", "method": method, "opts": opts, "program": src}
+        ctx.case(key=("e2e", method, src), tags=["e2e:" + method] + (["e2e:plt-libcall"] if use_plt and any(
+            h[1] == "getpid" for h in hooks) else []), size=len(hooks))
+        if rc != 0:
+            ctx.violation("C17 (end to end, %s): uftrace record with read= / -W var failed (rc=%d)" % (method, rc),
+                          dict(rep, stderr=e[-400:]), True)
+            continue
+        streams = e2e_decode(dd)
+        items = max(streams.values(), key=len)
+        # keep what the program itself did: from ENTRY main to EXIT main
+        names = [it[4] if it[0] == "R" else None for it in items]
+        if "main" not in names:
+            ctx.violation("C17 (end to end, %s): main is not in the recorded stream" % method, rep, True)
+            continue
+        i0 = names.index("main")
+        i1 = len(names) - 1 - names[::-1].index("main")
+        body = items[i0:i1 + 1]
+        rep["stream"] = [list(x) for x in body][:80]
+        # 1. nesting after erasing, and the calls of the program in order
+        got = [(("E" if it[2] == 0 else "X"), it[4]) for it in body if it[0] == "R"]
+        if got != [(h[0], h[1]) for h in hooks]:
+            ctx.violation("C17 (end to end, %s): erasing the events does not leave the program's call history" % method,
+                          dict(rep, expected=[(h[0], h[1]) for h in hooks][:60], got=got[:60]), True)
+            continue
+        # 2. read / diff adjacency and plausibility
+        bad = None
+        last_minor = -1
+        for i, it in enumerate(body):
+            if it[0] != "R":
+                continue
+            trg = it[4].endswith("_f1") or it[4] == "getpid"
+            nxt = body[i + 1] if i + 1 < len(body) else None
+            prv = body[i - 1] if i > 0 else None
+            if it[2] == 0:
+                isr = nxt is not None and nxt[0] == "E" and nxt[2] == 100002 and nxt[1] == it[1]
+                if trg != isr:
+                    bad = "ENTRY %s %s followed by a read event" % (it[4], "is not" if trg else "is")
+                elif isr:
+                    if nxt[3][1] < last_minor:
+                        bad = "page-fault readings go down"
+                    last_minor = nxt[3][1]
+            else:
+                isd = prv is not None and prv[0] == "E" and prv[2] == 100004 and prv[1] == it[1]
+                if trg != isd:
+                    bad = "EXIT %s %s preceded by a diff event" % (it[4], "is not" if trg else "is")
+                elif isd and any(signed64(v) < 0 or signed64(v) > 1 << 20 for v in prv[3]):
+                    bad = "implausible page-fault difference %r" % (prv[3],)
+            if bad:
+                break
+        if bad:
+            ctx.violation("C17 (end to end, %s): %s" % (method, bad), rep, True)
+            continue
+        # 3. -W var: the changes of gv at the hooks
+        exp, prev = [], 0
+        for hk in hooks:
+            if hk[2] != prev:
+                exp.append(hk[2])
+            prev = hk[2]
+        gotv = [it[3][0] for it in body if it[0] == "E" and it[2] == ID_VAR]
+        if gotv != exp:
+            ctx.violation("C17 (end to end, %s): -W var:gv events %r, changes of gv at the hooks %r" % (method, gotv, exp),
+                          rep, True)
+            continue
+        # 4. every event inside the enclosing call's interval
+        stk = []
+        for it in body:
+            if it[0] == "R" and it[2] == 0:
+                stk.append([it[1], it[1]])
+            elif it[0] == "R":
+                t0, m = stk.pop()
+                if m > it[1]:
+                    ctx.violation("C17 (end to end, %s): an event is stamped after the EXIT of the enclosing call" % method, rep, True)
+                    break
+            elif stk:
+                if it[1] < stk[-1][0]:
+                    ctx.violation("C17 (end to end, %s): an event is stamped before the ENTRY of the enclosing call" % method,
+                                  rep, True)
+                    break
+                stk[-1][1] = max(stk[-1][1], it[1])
+        ctx.extra["e2e_events_checked"] = ctx.extra.get("e2e_events_checked", 0) + sum(1 for it in body if it[0] == "E")
+        ctx.extra["e2e_read_functions"] = ctx.extra.get("e2e_read_functions", 0) + sum(
+            1 for hk in hooks if hk[0] == "E" and (hk[1].endswith("_f1") or hk[1] == "getpid"))
+
+
 def sample_of(case):
     return {"cfg": case["cfg"], "reads": case["reads"], "watch": [case["wcpu"], case["wvar"]],
             "events": [(e[0], e[1], e[2]) for e in case["evs"][:8]], "stream": case["res"]["items"][:10]}
@@ -1247,6 +1442,7 @@ def run(ctx):
     known(ctx)
     inproc(ctx)
     threads(ctx)
+    e2e(ctx)
     if ctx.thorough():
         regression_valgrind(ctx)
 
